@@ -438,6 +438,17 @@ impl Args {
             failed = count_failed,
             detached = count_detached,
         );
+        #[cfg(feature = "verif")]
+        scrut::verif::emit(
+            "run_end",
+            serde_json::json!({
+                "success": count_success,
+                "skipped": count_skipped,
+                "failed": count_failed,
+                "detached": count_detached,
+                "outcomes": outcomes.len(),
+            }),
+        );
         print!("{}", renderer.render(&outcomes.iter().collect::<Vec<_>>())?);
 
         if count_failed > 0 {
